@@ -7,11 +7,12 @@ mod ext;
 mod astser;
 mod execsuite;
 mod lexsuite;
+mod analysissuite;
 
 use std::io::{BufRead, Write};
 use sx::Sx;
 
-pub const SIZE_BUDGET: u64 = 1048576;
+pub const SIZE_BUDGET: u64 = 65536;
 
 fn case_timeout_secs() -> u64 {
     std::env::var("VERIF_CASE_TIMEOUT").ok().and_then(|s| s.parse().ok()).unwrap_or(10)
@@ -40,6 +41,7 @@ fn run_case(line: &str) -> String {
             "uni" => unicode::run_uni(&op, &args),
             "exec" => execsuite::run_exec(&op, &args),
             "lex" => lexsuite::run_lex(&op, &args),
+            "ana" => analysissuite::run_analysis(&op, &args),
             _ => ext::run(&suite, &op, &args),
         }
     });
